@@ -406,7 +406,21 @@ class TimeShim:
     """Stands in for the `time` module inside engineio modules."""
     @staticmethod
     def time():
-        return _hub.now
+        # time.time() is a call, hence a point where CPython may switch threads.  Only drivers
+        # that ask for it (hub.time_yield = length of a tick) get a switch point here: an ordinary
+        # hold-back point, and - only where the driver allows it (task.long_ok, set while the
+        # thread is inside a section whose delay postpones no protocol step, e.g. the heartbeat
+        # checker) - with a small probability a long pre-emption of 1-3 ticks of virtual time.  The pre-emption
+        # happens at the call boundary, before the clock is read: the value returned is the
+        # time at which the thread got the processor back.
+        h = _hub
+        ty = getattr(h, 'time_yield', None)
+        if ty and h.preempt and h.scripted is None and h.current is not None:
+            if getattr(h.current, 'long_ok', 0) and h.rng.random() < 0.15:
+                h._block(('preempted',), timeout=h.rng.choice((1, 2, 3)) * ty)
+            else:
+                h.yield_point(hold=True)
+        return h.now
 
     @staticmethod
     def sleep(s=0):
